@@ -12,10 +12,10 @@ import (
 	"circlsim/core"
 
 	"github.com/cloudflare/circl/abe/cpabe/tkn20"
-	bls12381 "github.com/cloudflare/circl/ecc/bls12381"
 	"github.com/cloudflare/circl/cipher/ascon"
 	"github.com/cloudflare/circl/dh/csidh"
 	"github.com/cloudflare/circl/dh/sidh"
+	bls12381 "github.com/cloudflare/circl/ecc/bls12381"
 	"github.com/cloudflare/circl/group"
 	"github.com/cloudflare/circl/hpke"
 	"github.com/cloudflare/circl/sign/ed25519"
